@@ -5,7 +5,7 @@ from common import Case
 TITLE = 'Every contract and result scores what the duplicate scoring table says'
 LEAN_TARGETS = ['BridgeVerif.Props.C07', 'BridgeVerif.Props.C07t']
 AUDIT_PROPS = ['C07', 'C07t']
-REQUIRED = ['C07t.translated_calc_bid_score_is_law', 'C07t.translated_calc_bid_score_rejects_non_bids', 'C07t.translated_contract_is_model',
+REQUIRED = ['C07t.translated_calc_score_is_law', 'C07t.translated_calc_score_passed_out', 'C07t.translated_calc_bid_score_is_law', 'C07t.translated_calc_bid_score_rejects_non_bids', 'C07t.translated_contract_is_model',
             'calc_bid_score_is_law', 'calc_score_is_law', 'declarer_side_vulnerability_only',
             'passed_out_scores_zero', 'is_vul_is_declarer_side']
 EXHAUSTIVE = True
